@@ -507,6 +507,15 @@ def register(chk, prog):
                         chk.add("%s:equal:%s,%s:%s" % (g, ra, rb, rel), ob_equal, prog, k, ra, rb, rel)
 
 
+def include_in(chk):
+    """this check's obligations registered inside a check of a layer above (framework.Check.include)"""
+    prog = build.load_program("A", files=["src/bls12_381/curve.cpp", "src/bls12_381/fq2.cpp", "src/bls12_381/fq.cpp",
+                                           "src/bls12_381/curve_fast_multiply.cpp", "src/bls12_381/pairing.cpp",
+                                           "src/bls12_381/bls12_381.cpp"], tag="c05")
+    prog.demangle_all()
+    register(chk, prog)
+
+
 def main(argv=None):
     chk = Check("C05", "proof", argv)
     prog = build.load_program("A", files=["src/bls12_381/curve.cpp", "src/bls12_381/fq2.cpp", "src/bls12_381/fq.cpp",
@@ -523,6 +532,9 @@ def main(argv=None):
     chk.trusted = ["T4: chord-and-tangent formulas are the group law; on a curve x1=x2 implies y2=+-y1 (case split exhaustive)",
                    "T3: Z[x]->Fq[x] transfer", "C02/C04: base-field operations are exact", "clang -O1 vs -Ofast"]
     chk.assumptions = ["base field behaves as a commutative ring without zero divisors (C02, C04)"]
+    # lower layers whose specifications this check relies on: their obligations are part of this check's claim (framework.Check.include)
+    for dep in ['C02', 'C04']:
+        chk.include(dep)
     chk.run()
     chk.finish()
 
